@@ -17,6 +17,10 @@ def prune_dangling(ops):
         if k == "CONSTRUCT":
             live.add((op[1], op[2]))
             out.append(op)
+        elif k == "HOLD":
+            if (op[1], op[3]) in live:
+                live.add((op[1], op[2]))
+                out.append(op)
         elif k in ("READ", "READX", "DROP"):
             if (op[1], op[2]) in live:
                 out.append(op)
@@ -36,10 +40,13 @@ def used_ids(sc, ops):
             specs.add(op[3])
         elif k in ("READ", "READX"):
             args.update(path_arg_ids(op[3]))
+        elif k == "HOLD":
+            args.update(path_arg_ids(op[4]))
+            clients.add(op[1])
         elif k == "PROBE":
             specs.add(op[1])
             args.update(path_arg_ids(op[2]))
-        elif k == "RELOAD":
+        elif k in ("RELOAD", "EDIT"):
             args.add(op[1])
     for sid in specs:
         args.update(model.spec_arg_ids(sc["specs"][sid]))
